@@ -23,6 +23,29 @@ LEXEMES = {
 ITEMS = ['Include', 'CppInclude', 'Namespace', 'Typedef', 'Constant', 'Enum', 'Struct', 'Union', 'Exception', 'Service']
 
 
+def lexemes(g):
+    """the lexeme parsers: the named ones plus every parser that is used only inside lexemes (e.g. the per-quote helpers of
+    Literal, whatever they are called)"""
+    lex = set(LEXEMES)
+    users = {}
+    for name, ts in g.trees.items():
+        for t in ts:
+            for n in g.walk(t):
+                if n.kind == 'ref':
+                    users.setdefault(n.text, set()).add(name)
+        for d in g.direct_calls.get(name, []):
+            users.setdefault(d, set()).add(name)
+    changed = True
+    while changed:
+        changed = False
+        for name in g.trees:
+            # only helpers of the token-level parsers inherit (Item merely dispatches to the declarations)
+            if name not in lex and users.get(name) and users[name] <= (lex - {'Item', 'blank', 'comment', 'list_separator'}):
+                lex.add(name)
+                changed = True
+    return lex
+
+
 def seq_next(g, n):
     """elements that may follow node n inside its own tree: list of (node, came_through_only_nullable)"""
     out = []
@@ -160,8 +183,9 @@ def _mandatory_blank_first(g, s):
 
 def rule_b(rep, g):
     rule = 'R15.b'
+    lex = lexemes(g)
     for name, ts in sorted(g.trees.items()):
-        if name in LEXEMES:
+        if name in lex:
             continue
         for t in ts:
             for n in g.walk(t):
@@ -462,8 +486,20 @@ def rule_g(rep, g):
     lit = g.trees.get('Literal') or []
     r = repr(lit[0]) if lit else ''
     x = strip(lit[0]) if lit else None
-    qs = {repr(strip(k)) for k in x.kids} if x is not None and x.kind == 'alt' else set()
-    if qs == {'single_quote', 'double_quote'}:
+    qs = set()
+    if x is not None and x.kind == 'alt':
+        for k in x.kids:
+            k = strip(k)
+            ts2 = g.trees.get(k.text, []) if k.kind == 'ref' else [k]
+            for t2 in ts2:
+                t2 = strip(t2)
+                first = t2.kids[0] if t2.kind == 'seq' and t2.kids else t2
+                first = strip(first)
+                if first.kind == 'tag':
+                    qs.add(first.text)
+                elif first.kind == 'cc' and (first.text or '').startswith('char('):
+                    qs.add(first.text[6:-2])
+    if qs == {"'", '"'}:
         rep.ok(rule, key, 'both quote styles', g.bodies['Literal'].loc())
     else:
         rep.bad(rule, key, g.bodies['Literal'].loc() if 'Literal' in g.bodies else '', 'Literal no longer accepts both quote styles: %s' % r)
